@@ -260,6 +260,13 @@ def static_part(run: core.Run):
         run.obligation("effects2coq: the trainer source parses", False, repr(e)[:300])
         return None, None, {"unsupported": {"why": repr(e)}}
     run.obligation("effects2coq: the trainer source is inside the recognised fragment (fail-closed translator)", True)
+    try:
+        st = tr.self_test(core.REPO)
+        run.coverage["translator_self_test"] = st
+        run.obligation("effects2coq self-test: every deliberately mutated copy of the source gives a changed or "
+                       "rejected term", st["applied"] >= 3 and not st["missed"], json.dumps(st))
+    except Exception as e:     # noqa
+        run.obligation("effects2coq self-test ran", False, repr(e)[:300])
     pre = gen_preamble(text)
     try:
         vals_l = core.coq_eval_lines(pre, "render (rlist rbool) [" + "; ".join(e for _, e in CHECKERS) + "]")[0]
